@@ -28,19 +28,28 @@ THEOREMS = ['link_refinement', 'link_refinement_framing_laws', 'link_refinement_
             'agreeing_proxy_accepted', 'issued_from_call_steps', 'result_from_step',
             'timedOut_from_expire_step', 'C11_call_selected_interface_agrees', 'C11_call_through_agreeing_proxy',
             'C11_call_through_introspected_proxy', 'bytes_run_simulated', 'C11_bytes_any_delivery_order_partial',
+            'bytes_nothing_stuck_in_a_receiver',
             'C11_returns_what_it_returned', 'prefix_model_violates']
 TRUSTED_BASE = [
+    'glue of the byte-level and introspection theorems that NO C11 stream exercises (the driver exposes neither `bstep` '
+    'nor `introspectedProxy`: they need a concrete codec / C15\'s event model, which have their own drivers): '
+    'BNet.flush / busHandle / cliHandleAll / the take-drop wire discipline / BNet.init (Net/Bytes.lean), '
+    'ifaceOfIntro / methodOfIntro and the link hypothesis `ho` (Proofs/Net/Introspected.lean), any WireCodec instance; '
+    'their components are tied elsewhere: Proto.step by C04\'s streams, generate / getInterfaces by C15\'s, '
+    'issue / receive / sendAnswer / check by the message-level streams of this harness (through the induced schedule)',
     'harness/net.py: in-memory byte pipes + per-peer DBusMessage._nextSerial swapping (one counter per process)',
     'message-level schedule induced from rawDBusMessageReceived/sendMessage instrumentation of each peer',
     'wire codec, framing, authentication, validators, introspection XML: not re-modelled (C01-C04, C06, C07, C15, '
     'C18); they enter the model as World parameters whose values the harness takes from the real code',
 ]
+ASSUMPTIONS_OLD = None
 ASSUMPTIONS = [
     'link assumption (link_refinement): C04 binary_partition_independent + frames_of_messages, C03 parse_marshal',
     'values are compared up to the wire normalisation: tuples read back as lists, wrapper classes as plain '
     'int/str, bytearray as a list of ints; a single struct return is read back as a one-element list holding the '
     'struct (upstream-tested convention of _cbCvtReply)',
-    'all clients are txdbus clients (nobody forges replies); calls expect a reply; no timeouts; no disconnects',
+    'all clients are txdbus clients (nobody forges replies); calls expect a reply; no disconnects (deadlines of '
+    '`timeout=` calls are modelled: step `expire`)',
     'exception texts and names are valid DBus strings (F29 is the boundary, owned by C10)',
 ]
 RULE = ('a case = one scenario (clients, exported declarations, calls, behaviours) under one schedule; distinct = '
@@ -306,6 +315,7 @@ def gen_scenario(rng, small=False):
         std = [(i2, m) for i2 in spec['ifaces'] for m in i2['methods'] if m[0] in ('Ping', 'Introspect', 'GetManagedObjects')]
         if std and rng.random() < 0.6:
             iface, meth = rng.choice(std)
+        replace = (not small) and rng.random() < 0.3        # replaceKnownInterfaces=True for introspecting proxies
         how = rng.choice(['explicit', 'introspect'] if small else ['explicit', 'explicit', 'introspect', 'introspect', 'byname'])
         wrong = None
         r = rng.random()
@@ -329,9 +339,18 @@ def gen_scenario(rng, small=False):
             args = [[1, 2]]
             bad_args = True
         call = {'caller': rng.randrange(n), 'export': ex, 'iface': iface['name'], 'member': meth[0],
-                'how': how, 'wrong': wrong, 'kw': kw, 'bad_args': bad_args, 'order': order,
+                'how': how, 'wrong': wrong, 'kw': kw, 'bad_args': bad_args, 'order': order, 'replace': replace,
                 'args': [valcodec.to_line(a) for a in args]}
-        if not small and how == 'introspect' and rng.random() < 0.06:
+        if not small and how == 'introspect' and rng.random() < 0.10:
+            # org.freedesktop.DBus.Properties through the proxy object: served by DBusObject's decorated base-class
+            # methods (the commonest proxy call in practice)
+            pm = rng.choice(['GetAll', 'GetAll', 'Get', 'Set'])
+            target = rng.choice([i2['name'] for i2 in spec['ifaces']] + ['org.t.NoSuchInterface'])
+            pargs = {'GetAll': [target], 'Get': [target, 'NoSuchProperty'], 'Set': [target, 'NoSuchProperty', 5]}[pm]
+            call.update(iface='org.freedesktop.DBus.Properties', member=pm, bad_args=False,
+                        kw=rng.choice([None, 'org.freedesktop.DBus.Properties']),
+                        args=[valcodec.to_line(a) for a in pargs])
+        elif not small and how == 'introspect' and rng.random() < 0.06:
             # a member the handler answers itself, called through the introspected proxy object (no user method
             # runs: only "completes exactly once" is judged)
             bi, bm = rng.choice([('org.freedesktop.DBus.Peer', 'Ping'),
@@ -360,7 +379,8 @@ def gen_scenario(rng, small=False):
             prev = [k0 for k0, c0 in enumerate(calls)
                     if c0['export'] == ex and c0['wrong'] is None and c0['how'] in ('explicit', 'introspect')
                     and c0.get('reuse') is None and c0.get('after') is None]
-            if prev and wrong is None and rng.random() < 0.4:
+            if (prev and wrong is None and not call['iface'].startswith('org.freedesktop.DBus')
+                    and call['wrong'] is None and rng.random() < 0.4):
                 k0 = rng.choice(prev)
                 c0 = calls[k0]
                 call.update(reuse=k0, after=k0, caller=c0['caller'], how=c0['how'], order=c0['order'],
@@ -467,6 +487,14 @@ def gen_revision_scenario(rng):
                       'member': m2[0], 'how': 'explicit', 'wrong': None, 'kw': rng.choice([None, name]),
                       'bad_args': False, 'order': 'decl', 'after': 0, 'register': rng.random() < 0.4,
                       'args': [valcodec.to_line(x) for x in gen_body(rng, m2[1])]})
+    if rng.random() < 0.6:
+        # the same caller INTROSPECTS the revision-2 object after the revision-1 one: with replaceKnownInterfaces=True
+        # the proxy must follow revision 2; without it the cached revision 1 is used as it is (documented: stale)
+        m2 = rng.choice(rev2)
+        rep_ = rng.random() < 0.6
+        calls.append({'caller': caller, 'export': 1, 'iface': name, 'member': m2[0], 'how': 'introspect',
+                      'wrong': None if rep_ else 'stale-cache', 'kw': None, 'bad_args': False, 'order': 'decl',
+                      'after': 0, 'replace': rep_, 'args': [valcodec.to_line(x) for x in gen_body(rng, m2[1])]})
     plans = [[rng.choice(['value', 'value', 'defer-value', 'raise-named']) for _ in range(3)] for _ in exports]
     return {'n': n, 'exports': exports, 'calls': calls, 'plans': plans, 'vseed': rng.randrange(10**9),
             'family': 'revisions'}
@@ -587,8 +615,7 @@ class Run:
         from txdbus import objects, interface, introspection
         from txdbus.interface import DBusInterface, Method
         scn = self.scn
-        DBusInterface.knownInterfaces.clear()
-        self.net = net = Net()
+        self.net = net = Net()        # every peer starts from the import-time knownInterfaces (harness/net.py)
         n = scn['n'] + (1 if self.catch_all else 0)
         self.conns = net.connect_all(n, big_endian=set(scn.get('big_endian', [])))
         self.name_of = [c.busName for c in self.conns]
@@ -692,6 +719,22 @@ class Run:
                     attrs[fname] = f
                 klass = type('Exp%d' % ei, (objects.DBusObject,), attrs)
                 self.layouts.append([[(fname, fid, deco) for fname, f, fid, deco in made]])
+            # org.freedesktop.DBus.Properties: DBusObject's decorated base-class methods, observed through overrides
+            # of the same attribute names in the most derived class (that is the function `executeMethod` reaches)
+            pw = []
+            for pm in ('Get', 'Set', 'GetAll'):
+                fid = fid_next[0]
+                fid_next[0] += 1
+                wf = self._make_props_wrapper(ei, pm, fid)
+                wf._fid = fid
+                setattr(klass, '_dbus_Property' + pm, wf)
+                pw.append(('_dbus_Property' + pm, fid, None))
+            base_layer = []
+            for pm in ('Get', 'Set', 'GetAll'):
+                bf = objects.DBusObject.__dict__['_dbus_Property' + pm]
+                base_layer.append(('_dbus_Property' + pm, self.func_ids.setdefault(bf, 1000 + len(self.func_ids)),
+                                   ('org.freedesktop.DBus.Properties', pm)))
+            self.layouts[-1] = [pw + self.layouts[-1][0]] + self.layouts[-1][1:] + [base_layer]
             obj = klass(spec['path'])
             with net.as_peer(j):
                 self.conns[j].exportObject(obj)
@@ -778,6 +821,33 @@ class Run:
                 else:
                     out += [hs(nm), '%d' % fid, '~', '~']
         return ' '.join(out)
+
+    def _make_props_wrapper(self, ei, pm, fid):
+        from txdbus import objects
+        base = objects.DBusObject.__dict__['_dbus_Property' + pm]
+        spec = self.scn['exports'][ei]
+        j = spec['client']
+
+        def wrapper(obj, *args):
+            rec = {'export': ei, 'client': j, 'iface': 'org.freedesktop.DBus.Properties', 'member': pm,
+                   'args': list(args), 'impl': fid, 'caller': '-', 'kind': 'properties',
+                   'sigOut': {'Get': 'v', 'Set': '', 'GetAll': 'a{sv}'}[pm]}
+            rec['nret'] = len(complete_types(rec['sigOut']))
+            rec['own_sigOut'] = rec['sigOut']
+            exc = None
+            try:
+                ret = base(obj, *args)
+                rec['result'] = ('value', ret)
+            except Exception as e:
+                exc = e
+                rec['result'] = ('raised', '@' + type(e).__name__, str(e), list(e.args))
+                rec['exc_dbus'] = getattr(e, 'dbusErrorName', None)
+            self.net.log.append(('inv', 'cli:%d' % j, rec))
+            self.invoked += 1
+            if exc is not None:
+                raise exc
+            return ret
+        return wrapper
 
     def _make_func(self, ei, fname, params, wants_caller, fid, iface, member):
         src = 'def %s(self, %s):\n    return _hook(self, %d, %r, %r, [%s], %s)\n' % (
@@ -902,6 +972,8 @@ class Run:
         the message), which need not be the one the function that ran was written for (mixed binding)."""
         spec = self.scn['exports'][rec['export']]
         rec['call_iface'], rec['call_member'] = m.get('iface'), m.get('member')
+        if rec.get('kind') == 'properties':
+            return
         for i in spec['ifaces']:
             if (m.get('iface') and i['name'] == m['iface']) or (not m.get('iface') and
                                                                 any(x[0] == m.get('member') for x in i['methods'])):
@@ -920,6 +992,8 @@ class Run:
                 line = 'seq %s %d %s' % (toks_under(so, [r])[0], len(r), ' '.join(toks_under(so, r)))
                 return ' '.join(line.split())
             return 'obj %s' % toks_under(so, [r])[0]
+        if res[1].startswith('@'):
+            return 'raised %s %s %s' % (ho(rec.get('exc_dbus')), hs(res[1][1:]), hs(res[2]))
         cls = EXC_CLASSES[res[1]]
         return 'raised %s %s %s' % (ho(getattr(cls, 'dbusErrorName', None)), hs(res[1]), hs(res[2]))
 
@@ -1085,13 +1159,16 @@ class Run:
             call['cached'] = all(nm in net.known_of(c) for nm in names)      # the cache of THAT process
         dest = spec['wkname'] if call.get('dest_name') and spec.get('wkname') else self.name_of[j]
         with net.as_peer(c):
-            d = self.conns[c].getRemoteObject(dest, spec['path'], names)
+            d = self.conns[c].getRemoteObject(dest, spec['path'], names,
+                                              replaceKnownInterfaces=bool(call.get('replace')))
 
         def ok(ro):
             call['proxy'] = ro
             self.actions.append(('call', k))
             for k2 in self.waiting.pop(k, []):
-                self.actions.append(('call', k2))
+                self.actions.append(('getproxy', k2) if self.calls[k2]['how'] in ('introspect', 'byname') and
+                                    'proxy' not in self.calls[k2] and self.calls[k2].get('reuse') is None
+                                    else ('call', k2))
             net.log.append(('done', 'cli:%d' % c, k, 'proxy', None))
             return ro
 
@@ -1466,11 +1543,13 @@ class Run:
                     self.flag('result-differs', 'the proxy call completed with a value different from what the method returned',
                               observed=repr(val), expected=repr(want))
             else:
-                cls = EXC_CLASSES[res[1]]
-                name = getattr(cls, 'dbusErrorName', None)
+                if res[1].startswith('@'):
+                    name, cname = rec.get('exc_dbus'), res[1][1:]
+                else:
+                    name, cname = getattr(EXC_CLASSES[res[1]], 'dbusErrorName', None), res[1]
                 if name == 'not a valid name':
                     continue        # an invalid error name cannot be mirrored; InvalidErrorName is the documented answer
-                want_name = name or 'org.txdbus.PythonException.' + res[1]
+                want_name = name or 'org.txdbus.PythonException.' + cname
                 if kind != 'fail' or not isinstance(val.value, error.RemoteError):
                     self.flag('error-not-mirrored', 'the method raised but the proxy call did not fail with RemoteError',
                               observed=self.outcome_text(kind, val), expected=want_name)
